@@ -76,7 +76,7 @@ def run(ctx):
     if not quick:
         _routes(ctx, binp, path, "mixed-smallchunks", 300)
     path, n, _ = _db.tlc_export(ctx, "db-c06-runs-big.cfg", "RUN", "runs-big", simulate="num=%d" % (1 if quick else 8), depth=8, workers=w)
-    _routes(ctx, binp, path, "prepopulated", 4096)
+    _routes(ctx, binp, path, "prepopulated", 512)
 
     # random streams
     nt = 150 if quick else 1500
